@@ -35,6 +35,15 @@ def programs(tier, seed):
         ("same_filter_two_tables_join", f"({D}{flt}.project({{'s': 'x.sum()'}}, group_by=['g'])).natural_join(b=({D2}{flt}.project({{'t': 'x.sum()'}}, group_by=['g'])), on=['g'], jointype='inner')"),
         ("same_extend_two_tables_concat", f"({D}.extend({{'w': 'x + y'}})).concat_rows(b=({D2}.extend({{'w': 'x + y'}})), id_column='src')"),
         ("same_project_two_tables", f"({D}.project({{'s': 'x.sum()'}}, group_by=['g'])).concat_rows(b=({D2}.project({{'s': 'x.sum()'}}, group_by=['g'])), id_column=None)"),
+        # an extend that the SQL generator merges into the SELECT of the extend below it, while that inner extend is ALSO used a second time
+        # (CTE elimination must not take the merged SELECT for the plain inner step)
+        ("merged_window_over_shared_extend", f"(lambda a: a.extend({{'x': 'x.max()'}}, partition_by=['g']).natural_join(b=a.rename_columns({{'x2': 'x', 'y2': 'y', 'z2': 'z'}}), "
+                                             f"on=['g'], jointype='left'))({D}.extend({{'z': 'y + 1'}}))"),
+        ("merged_plain_over_shared_extend", f"(lambda a: a.extend({{'x': 'x * 2'}}).natural_join(b=a.rename_columns({{'x2': 'x', 'y2': 'y', 'z2': 'z'}}), on=['g'], jointype='left'))"
+                                            f"({D}.extend({{'z': 'y + 1'}}))"),
+        ("shared_extend_then_merged_on_the_right", f"(lambda a: a.rename_columns({{'x2': 'x', 'y2': 'y', 'z2': 'z'}}).natural_join(b=a.extend({{'x': 'x.max()'}}, partition_by=['g']), "
+                                                   f"on=['g'], jointype='left'))({D}.extend({{'z': 'y + 1'}}))"),
+        ("shared_extend_concat_merged", f"(lambda a: a.extend({{'x': 'x + 100'}}).concat_rows(b=a, id_column=None))({D}.extend({{'z': 'y + 1'}}))"),
         ("merge_chain", f"{D}.extend({{'w': 'x + 1'}}).extend({{'v': 'y * 2'}}).extend({{'u': 'w + v'}})"),
         ("merge_overwrite", f"{D}.extend({{'x': 'x + 1'}}).extend({{'v': 'y * 2'}}).extend({{'y': 'x + v'}})"),
         ("merge_rekey_window", f"{D}.extend({{'y': '-y'}}).extend({{'c': 'x.cumsum()'}}, partition_by=['g'], order_by=['y'])"),
